@@ -1,6 +1,6 @@
 (* Storage records: Message.Marshal/Unmarshal (amqp/types.go), Queue, Exchange and Binding
    Marshal/Unmarshal (queue/queue.go, exchange/exchange.go, binding/binding.go).
-   Only what is stored is modelled (Mandatory/Immediate/DeliveryCount/ConfirmMeta of a message,
+   Only what is stored is modelled (Mandatory/Immediate/ConfirmMeta of a message,
    CloseAfter/Sync of a frame, durable/exclusive/arguments of a queue are not stored: findings F22).
    Definitions only. *)
 From Coq Require Import List String NArith Bool.
@@ -8,7 +8,8 @@ Import ListNotations.
 From GMQ Require Import Base.Bytes Codec.Desc Codec.Prim Codec.Value Codec.MethodCodec Codec.Header Codec.Frame.
 Open Scope N_scope.
 
-Record message := { msg_id : N; msg_header : header; msg_exchange : bytes; msg_rk : bytes; msg_body : list frame }.
+Record message := { msg_id : N; msg_header : header; msg_exchange : bytes; msg_rk : bytes; msg_body : list frame;
+                    msg_count : N (* DeliveryCount, uint32 *) }.
 Record queue_rec := { q_name : bytes; q_autodelete : bool }.
 Record exchange_rec := { ex_name : bytes; ex_type : N }.
 Record binding_rec := { b_queue : bytes; b_exchange : bytes; b_rk : bytes; b_args : table; b_topic : bool }.
@@ -38,28 +39,49 @@ Section Records.
       else Ok ([], bs)
     end.
 
-  Definition dec_message (bs : bytes) : result (message * bytes) :=
+  (* whether Marshal writes / Unmarshal reads the delivery-count trailer: regenerated from the source
+     (Codec/gen/RecordsGen.v); records written before the trailer existed have none *)
+  Variable tw : bool.
+  Variable tr : bool.
+
+  (* everything up to and including the body frames *)
+  Definition dec_message_core (bs : bytes) : result (message * bytes) :=
     i <- dec_longlong bs ;;
     h <- dec_header st rd d pf pr (snd i) ;;
     ex <- dec_shortstr (snd h) ;;
     rk <- dec_shortstr (snd ex) ;;
     b <- dec_body (S (List.length (snd rk))) 0 (h_body_size (fst h)) (snd rk) ;;
-    Ok ({| msg_id := fst i; msg_header := fst h; msg_exchange := fst ex; msg_rk := fst rk; msg_body := fst b |}, snd b).
+    Ok ({| msg_id := fst i; msg_header := fst h; msg_exchange := fst ex; msg_rk := fst rk; msg_body := fst b; msg_count := 0 |}, snd b).
 
-  Definition enc_message (m : message) : option bytes :=
+  Definition with_count (m : message) (c : N) : message :=
+    {| msg_id := msg_id m; msg_header := msg_header m; msg_exchange := msg_exchange m; msg_rk := msg_rk m;
+       msg_body := msg_body m; msg_count := c |}.
+
+  (* `if reader.Len() >= 4 { m.DeliveryCount = ReadLong(reader) }`: fewer than 4 trailing bytes are ignored *)
+  Definition dec_message (bs : bytes) : result (message * bytes) :=
+    x <- dec_message_core bs ;;
+    if tr && (4 <=? blen (snd x)) then c <- dec_long (snd x) ;; Ok (with_count (fst x) (fst c), snd c)
+    else Ok x.
+
+  Definition enc_message_core (m : message) : option bytes :=
     h <-? enc_header wr d pf pw (msg_header m) ;;
     Some (enc_longlong (msg_id m) ++ h ++ enc_shortstr (msg_exchange m) ++ enc_shortstr (msg_rk m) ++
           flat_map (enc_frame frame_end) (msg_body m)).
+  Definition enc_message (m : message) : option bytes :=
+    b <-? enc_message_core m ;; Some (b ++ (if tw then enc_long (msg_count m) else [])).
 
   Definition body_total (fs : list frame) : N := fold_right (fun f a => blen (f_payload f) + a) 0 fs.
   (* Unmarshal stops as soon as the announced size is reached: the stored frames round-trip when
      their sizes add up to the header's body size and the last one is not empty *)
-  Definition wf_message (m : message) : bool :=
+  Definition wf_message_core (m : message) : bool :=
     (msg_id m <? 2 ^ 64) && wf_header rd wr d pf (msg_header m) &&
     (blen (msg_exchange m) <? 256) && (blen (msg_rk m) <? 256) &&
     forallb wf_frame (msg_body m) &&
     (body_total (msg_body m) =? h_body_size (msg_header m)) &&
     match rev (msg_body m) with [] => true | l :: _ => 0 <? blen (f_payload l) end.
+  (* with the trailer the count is a uint32; without it only a count of 0 comes back *)
+  Definition wf_message (m : message) : bool :=
+    wf_message_core m && (if tw then msg_count m <? 2 ^ 32 else msg_count m =? 0).
 
   (* Queue: name, auto-delete octet (read back as `> 0`) *)
   Definition dec_queue (bs : bytes) : result (queue_rec * bytes) :=
